@@ -377,6 +377,23 @@ func main() {
 		return
 	}
 	urlSafe, rawOnly := queries()
+	if a.Thorough() {
+		// every query of <= 4 symbols over the characters the tunnelling envelope is sensitive to
+		sym := []string{"a", "=", "&", "%25", "+", "%20", "-", "%0D%0A"}
+		var rec func(cur string, n int)
+		rec = func(cur string, n int) {
+			if n > 0 {
+				urlSafe = append(urlSafe, cur)
+			}
+			if n == 4 {
+				return
+			}
+			for _, x := range sym {
+				rec(cur+x, n+1)
+			}
+		}
+		rec("", 0)
+	}
 	sf := rep.S("encode-wire-decode")
 	sf.Bounds = fmt.Sprintf("verbs{GET,PUT,POST,DELETE} x %d URL-safe + %d raw queries x %d bodies through EncodeTunnelledQuery -> request serialisation -> http.ReadRequest -> DecodeTunnelledQuery", len(urlSafe), len(rawOnly), len(bodies()))
 	for _, verb := range []string{"GET", "PUT", "POST", "DELETE"} {
